@@ -528,6 +528,9 @@ func (w *Worker) ensureInit(pkg *ssa.Package) {
 
 var _ = types.Typ
 
+// SolverCmd is the solver command line used by this run.
+func SolverCmd() []string { return solverCmd() }
+
 func solverCmd() []string {
 	if v := os.Getenv("GOSMT_SOLVER"); v != "" {
 		return strings.Fields(v)
